@@ -6,6 +6,8 @@ from .. import common, absyn, values
 PRELUDE = ("name c03\nversion 1.0\nfloat x = 0.75\nint n = 5\ncomplex z = 0.5-1j\n"
            "int array A =\n    7, 4\n    1, 6\nfloat array B =\n    0.25, 2.5, -3.0\n")
 ENV = {"x": 0.75, "n": 5, "z": complex(0.5, -1), "A": [7, 4, 1, 6], "B": [0.25, 2.5, -3.0]}
+PRELUDE2 = PRELUDE + "G(A[1], B[2]) | 0\nint array A =\n    9, 8, 3, 6\nfloat array B =\n    0.5\n    1.25\n    4.0\n"
+ENV2 = {"x": 0.75, "n": 5, "z": complex(0.5, -1), "A": [9, 8, 3, 6], "B": [0.5, 1.25, 4.0]}
 FNS_QUICK = ["sin", "sqrt", "exp"]
 FNS_ALL = ["sin", "cos", "tan", "arcsin", "arccos", "arctan", "sinh", "cosh", "tanh", "arcsinh", "arccosh", "arctanh", "sqrt", "log", "exp"]
 
@@ -15,7 +17,8 @@ def judge(case):
     from .. import realrun
     e, v, sd = case["e"], case["v"], case["seed"]
     rng = random.Random(sd)
-    text = PRELUDE + "G(" + absyn.render_expr(e, rng) + ") | 0\n"
+    pre, env = (PRELUDE, ENV) if case.get("env", 1) == 1 else (PRELUDE2, ENV2)
+    text = pre + "G(" + absyn.render_expr(e, rng) + ") | 0\n"
     out = {"text": text}
     # the rendered text must parse back to exactly the tree TLC enumerated (binding table = ANTLR's tree)
     tree_ok = None
@@ -38,7 +41,7 @@ def judge(case):
         return ("bad", dict(out, reason="specification refuses, code returned a program"))
     real = res[1].operations[-1]["args"][0]
     try:
-        _, err = values.eval_term(e, ENV)
+        _, err = values.eval_term(e, env)
     except values.NotComparable as nc:
         return ("skip", dict(out, reason=str(nc)))
     try:
